@@ -245,7 +245,14 @@ func (w *concWorld) step(client int, r *rt.Rand, denyPct int) {
 		h.Class = "ok"
 		w.h.record(h)
 	case x < 92:
-		w.b.IsAnyPipelineRegistered(eventlogger.EventType(t))
+		h := &hop{Client: client, Kind: "isany", Type: t}
+		h.Call = rt.Tick()
+		if w.b.IsAnyPipelineRegistered(eventlogger.EventType(t)) {
+			h.Val = 1
+		}
+		h.Ret = rt.Tick()
+		h.Class = "ok"
+		w.h.record(h)
 	case x < 95:
 		_ = w.b.Reopen(ctx)
 	default:
@@ -304,6 +311,13 @@ var pipeModel = porcupine.Model{
 				return s.present, pstate{}
 			}
 			return !s.present, s
+		case "isany":
+			// IsAnyPipelineRegistered(t)=false: this pipeline id was absent at some point of the call
+			if i.h.Val == 0 {
+				return !s.present, s
+			}
+			// =true and this key was chosen as the witness: present at some point of the call
+			return s.present, s
 		case "send":
 			switch len(i.read) {
 			case 0:
@@ -479,6 +493,7 @@ func (w *concWorld) analyse(run *rt.Run, wit func() any) {
 		}
 	}
 	// partitions
+	basePart := map[string][]porcupine.Operation{}
 	for _, t := range w.types {
 		for _, p := range w.pids {
 			var po []porcupine.Operation
@@ -486,6 +501,10 @@ func (w *concWorld) analyse(run *rt.Run, wit func() any) {
 				switch o.Kind {
 				case "regpipe", "rmpipe", "rmpipenodes":
 					if o.Type == t && o.Pid == p {
+						po = append(po, porcupine.Operation{ClientId: o.Client, Input: pin{h: o}, Call: o.Call, Return: o.Ret})
+					}
+				case "isany":
+					if o.Type == t && o.Val == 0 {
 						po = append(po, porcupine.Operation{ClientId: o.Client, Input: pin{h: o}, Call: o.Call, Return: o.Ret})
 					}
 				case "send":
@@ -499,6 +518,26 @@ func (w *concWorld) analyse(run *rt.Run, wit func() any) {
 				}
 			}
 			checkLin(run, "pipeline-register", pkey(t, p), pipeModel, renumber(po), wit)
+			basePart[pkey(t, p)] = po
+		}
+		// IsAnyPipelineRegistered(t)=true needs a witness: some pipeline id of t that can have been
+		// present during the call (checked one call at a time, on top of the key's own history)
+		for _, o := range ops {
+			if o.Kind != "isany" || o.Type != t || o.Val != 1 {
+				continue
+			}
+			found := false
+			for _, p := range w.pids {
+				po := append(append([]porcupine.Operation(nil), basePart[pkey(t, p)]...), porcupine.Operation{ClientId: o.Client, Input: pin{h: o}, Call: o.Call, Return: o.Ret})
+				if porcupine.CheckOperationsTimeout(pipeModel, renumber(po), 10*time.Second) != porcupine.Illegal {
+					found = true
+					break
+				}
+			}
+			run.Add("isany_true_checked", 1)
+			if !found {
+				run.Violation("history-pattern:isany-true-without-pipeline", fmt.Sprintf("IsAnyPipelineRegistered(%s) returned true although no pipeline of the type can have been registered at any point of the call [%d,%d]", t, o.Call, o.Ret), wit())
+			}
 		}
 		for _, sinks := range []bool{false, true} {
 			var po []porcupine.Operation
